@@ -141,16 +141,37 @@ def _init_worker():
     signal.signal(signal.SIGINT, signal.SIG_IGN)
 
 
+class HardTimeout(BaseException):
+    """Wall-clock limit of one run. Not an Exception, and re-armed after it fires: code under test that
+    catches Exception (or even everything, once) cannot make a run immortal."""
+
+
+def with_alarm(seconds, fn, *args):
+    """fn(*args) under a wall-clock limit; raises HardTimeout."""
+    def _alarm(signum, frame):
+        signal.alarm(2)
+        raise HardTimeout(f"run exceeded {seconds}s wall")
+    old = signal.signal(signal.SIGALRM, _alarm)
+    signal.alarm(max(1, int(seconds)))
+    try:
+        return fn(*args)
+    finally:
+        signal.alarm(0)
+        signal.signal(signal.SIGALRM, old)
+
+
 def _guarded(fn, case, run_timeout):
     """Run fn(case) in a pool worker with a hard per-run alarm."""
     def _alarm(signum, frame):
-        raise TimeoutError(f"run exceeded {run_timeout}s wall")
+        signal.alarm(2)
+        raise HardTimeout(f"run exceeded {run_timeout}s wall")
     old = signal.signal(signal.SIGALRM, _alarm)
     signal.alarm(int(run_timeout))
     faulthandler.dump_traceback_later(run_timeout + 30, exit=True)
     try:
         return fn(case)
-    except TimeoutError as exc:
+    except (TimeoutError, HardTimeout) as exc:
+        signal.alarm(0)
         return {"harness_error": f"timeout: {exc}", "case": case}
     except Exception as exc:  # harness bug, never a VIOLATION
         return {"harness_error": f"{type(exc).__name__}: {exc}\n{traceback.format_exc()[-1500:]}",
